@@ -11,6 +11,7 @@ EXPLANATION = (
     "(SpillManager, AsyncSpillManager, ExternalSort, PartitionedState) has a Drop impl that reaches file removal; "
     "(R2) the spill codec's writer and reader agree (same rule as C16-R4). (R3) the comparator that sorts spilled runs and the one that merges them (found by use) treat direction and NULL placement alike. "
     "(R4) an element pulled from an iterator an operator keeps across calls is used before any return; (R5) what an intermediate push operator collected is forwarded before its stop request is propagated. "
+    "(R6) a partial-result type's merge(self, other) folds in every field that accumulation updates, from the same field of the other side, with the same arithmetic / comparison helper. "
     "Equality of results across strategies, "
     "worker counts or memory budgets is not decided.")
 ASSUMPTIONS = ["std::fs::remove_file / tokio remove_file are the removal primitives"]
@@ -117,6 +118,9 @@ def run(ctx):
 
     # ---- R5 what an intermediate operator collected is forwarded before a stop is propagated
     collected_output_forwarded(ctx, P, "R5")
+
+    # ---- R6 merging partial results covers what accumulation updates
+    merge_covers_accumulation(ctx, P, "R6")
 
     # ---- R2 = C16-R4 (spill codec)
     sub = type("Sub", (), {})()
@@ -252,3 +256,152 @@ def collected_output_forwarded(ctx, P, rule):
                         "to stop in the same call, like a limit, loses its last chunk unless it is the last operator"
                         % short_id(f.id), where=f.loc(t["line"]))
     ctx.floor(rule, n, 3, "pushes into an intermediate ChunkCollector")
+
+
+_ARITH = {"AddWithOverflow": "Add", "SubWithOverflow": "Sub", "MulWithOverflow": "Mul", "Add": "Add", "Sub": "Sub", "Mul": "Mul",
+          "AddUnchecked": "Add", "SubUnchecked": "Sub", "MulUnchecked": "Mul"}
+
+
+def _tfield(pl, T):
+    """name of the field of T that the place goes through (None if it does not)"""
+    for p in pl[1:]:
+        if isinstance(p, str) and p.startswith("f:") and p.split(":", 2)[2] == T:
+            return p.split(":", 2)[1]
+    return None
+
+
+def _places_of_rv(rv):
+    out = []
+    def walk(x):
+        if isinstance(x, list):
+            if len(x) == 2 and x[0] in ("m", "c") and isinstance(x[1], list):
+                out.append(x[1])
+            else:
+                for y in x:
+                    walk(y)
+    walk(rv[1:])
+    if rv[0] in ("ref", "discr", "len") :
+        for y in rv[1:]:
+            if isinstance(y, list) and y and isinstance(y[0], int):
+                out.append(y)
+    return out
+
+
+def field_profile(P, f, T, root=None):
+    """per field of T: {'w': written?, 'ops': arithmetic applied to it, 'helpers': workspace functions handed a reference to it,
+    'reads_from': roots whose same field is read}. root: only places rooted at this local count as writes (None = any)."""
+    prof = {}
+    def get(n):
+        return prof.setdefault(n, {"w": False, "ops": set(), "helpers": set(), "other": False})
+    refs = {}      # local -> field it references
+    for b in f.blocks:
+        if b["cl"]:
+            continue
+        for pl, rv, ln in b["s"]:
+            if rv[0] == "dead":
+                continue
+            n = _tfield(pl, T)
+            if n and len(pl) > 1 and (root is None or pl[0] == root):
+                get(n)["w"] = True
+                if rv[0] == "bin" and rv[1] in _ARITH:
+                    get(n)["ops"].add(_ARITH[rv[1]])
+            if rv[0] == "bin" and rv[1] in _ARITH:
+                for q in _places_of_rv(rv):
+                    m = _tfield(q, T)
+                    if m and (root is None or q[0] == root):
+                        get(m)["ops"].add(_ARITH[rv[1]])
+            if rv[0] == "ref" and isinstance(rv[2], list):
+                m = _tfield(rv[2], T)
+                if m and len(pl) == 1:
+                    refs[pl[0]] = (m, rv[2][0], rv[1])
+                    if rv[1] == "mut" and (root is None or rv[2][0] == root):
+                        get(m)["w"] = True
+            if rv[0] in ("use", "ref") and len(pl) == 1:
+                for q in _places_of_rv(rv):
+                    if len(q) >= 1 and q[0] in refs and not _tfield(q, T):
+                        refs.setdefault(pl[0], refs[q[0]])
+        t = b["t"]
+        if t["k"] == "call":
+            n = _tfield(t["dst"], T)
+            if n and (root is None or t["dst"][0] == root):
+                get(n)["w"] = True
+            c = callee_name(t)
+            for a in t["args"]:
+                if a[0] in ("m", "c") and isinstance(a[1], list) and a[1] and a[1][0] in refs and len(a[1]) == 1:
+                    m, r0, kind = refs[a[1][0]]
+                    if c in P.fns and P.fns[c].kind != "closure" and c.startswith("grafeo_") and (root is None or r0 == root):
+                        get(m)["helpers"].add(c.split("::")[-1])
+        if t["k"] == "drop":
+            pass
+    return prof
+
+
+def merge_covers_accumulation(ctx, P, rule):
+    """Partial results of parallel workers are combined with `merge(&mut self, other)`. The combination equals sequential
+    accumulation only if merge folds in every field that accumulation updates, takes it from the same field of `other`,
+    and combines it with the operation accumulation uses (a sum is added, a minimum goes through the same comparison
+    helper). A field left out of merge silently keeps the first worker's partial value."""
+    n = 0
+    for f in sorted(P.fns.values(), key=lambda f: f.id):
+        name = f.id.split("::")[-1]
+        if name not in ("merge", "merge_from") or f.kind == "closure" or f.argc != 2 or "::tests::" in f.id:
+            continue
+        T = f.impl_self
+        if not T or T not in P.adts or not f.id.startswith(("grafeo_core::execution::", "<grafeo_core::execution::")):
+            continue
+        oty = f.local_ty(2)
+        if T not in oty:
+            continue
+        mp = field_profile(P, f, T, root=1)
+        mfields = {k for k, v in mp.items() if v["w"]}
+        # does merge read other's field k?
+        oread = set()
+        for b in f.blocks:
+            if b["cl"]:
+                continue
+            for pl, rv, ln in b["s"]:
+                for q in _places_of_rv(rv):
+                    if q and q[0] == 2 and _tfield(q, T):
+                        oread.add(_tfield(q, T))
+            t = b["t"]
+            if t["k"] == "call":
+                for a in t["args"]:
+                    if a[0] in ("m", "c") and isinstance(a[1], list) and a[1] and a[1][0] == 2 and _tfield(a[1], T):
+                        oread.add(_tfield(a[1], T))
+            if t["k"] == "sw" and isinstance(t["d"], list) and len(t["d"]) > 1 and isinstance(t["d"][1], list) and t["d"][1] and t["d"][1][0] == 2 and _tfield(t["d"][1], T):
+                oread.add(_tfield(t["d"][1], T))
+        # accumulation sites anywhere in the workspace
+        acc = {}
+        for g in P.fns.values():
+            if g.id == f.id or "::tests::" in g.id:
+                continue
+            gn = g.id.split("::")[-1]
+            if gn in ("new", "default", "clone", "clear", "reset", "fmt") or gn.startswith(("with_", "finalize")):
+                continue
+            gp = field_profile(P, g, T, root=None)
+            for k, v in gp.items():
+                if v["w"]:
+                    a = acc.setdefault(k, {"ops": set(), "helpers": set(), "fns": set()})
+                    a["ops"] |= v["ops"]
+                    a["helpers"] |= v["helpers"]
+                    a["fns"].add(short_id(g.id))
+        if not acc:
+            continue
+        n += 1
+        tn = T.split("::")[-1]
+        for k in sorted(acc):
+            inst = "%s::%s#%s" % (tn, name, k)
+            if k not in mfields:
+                ctx.ob(rule, inst, False, what="%s::%s does not fold in the field `%s`, which %s update(s): the merged partial result keeps "
+                       "only this worker's value, so a parallel run differs from the sequential one" % (tn, name, k, ", ".join(sorted(acc[k]["fns"]))), where=f.loc())
+                continue
+            ok = k in oread
+            why = "does not take `%s` from the other partial result" % k
+            if ok and acc[k]["ops"] and not (acc[k]["ops"] <= mp[k]["ops"]):
+                ok = False
+                why = "combines `%s` with %s where accumulation uses %s" % (k, sorted(mp[k]["ops"]) or "an assignment", sorted(acc[k]["ops"]))
+            if ok and acc[k]["helpers"] != mp[k]["helpers"] and (acc[k]["helpers"] or mp[k]["helpers"]):
+                ok = False
+                why = "decides `%s` through %s where accumulation goes through %s" % (k, sorted(mp[k]["helpers"]) or "no helper", sorted(acc[k]["helpers"]) or "no helper")
+            ctx.ob(rule, inst, ok, what="%s::%s %s: merged partial results differ from sequential accumulation" % (tn, name, why), where=f.loc())
+    ctx.floor(rule, n, 2, "mergeable partial-result types with accumulation sites")
